@@ -1408,8 +1408,14 @@ pub fn gen_program(t: &mut Tape, o: &GenOpts) -> Generated {
                 };
                 defs.push(Def { body, ..src });
             }
-            // one mutation in one copy (mostly the one the group was grown from)
-            let victim = if g.t.chance(160) { 0 } else { g.t.choose(group.len()) };
+            // one mutation in one copy (mostly the one the group was grown from). A single-unsigned-field wrapper
+            // that other definitions use under `#[codec(compact)]` must stay one (HasCompact), so it is never the victim.
+            let eligible: Vec<usize> = (0..group.len()).filter(|j| !g.wrappers.contains(&group[*j])).collect();
+            if eligible.is_empty() {
+                defs.truncate(base);
+                g.labels.insert("group_version_abandoned_only_wrappers");
+            } else {
+            let victim = if g.t.chance(160) && eligible.contains(&0) { 0 } else { eligible[g.t.choose(eligible.len())] };
             let decls: Vec<Vec<ParamDecl>> = defs.iter().map(|d| d.params.clone()).collect();
             let mutated = mutate_body(g.t, &defs[base + victim].body, &decls);
             defs[base + victim].body = mutated;
@@ -1428,6 +1434,7 @@ pub fn gen_program(t: &mut Tape, o: &GenOpts) -> Generated {
             g.labels.insert("near_miss_group_version");
             if group.len() >= 2 {
                 g.labels.insert("near_miss_group_of_2_or_more");
+            }
             }
         }
     }
